@@ -469,6 +469,8 @@ def run_property(prop, tier, seed, replay=None):
     corr_breaks = []
 
     def process(batch):
+        if hasattr(prop, 'expand'):
+            batch = [prop.expand(c) for c in batch]
         models = runner.run(batch)
         impls = []
         for c in batch:
